@@ -163,4 +163,20 @@ theorem datetime_postprocess :
 theorem date_returns_cached_value :
     Gen.GlobalState.dateReturns = ["return parse_date(datespec)", "return date(year, month, day)"] := by rfl
 
+/-! #### caller-owned arguments -/
+
+/-- no function on the path of a caller-owned argument stores into it, deletes from it or calls a mutator on it
+    (`merge_options`, `generate`, `generate_data`, `parse_recipe`, … only READ `user_options`, `plugin_options`,
+    `output_files`, `dburls`, `update_passthrough_fields`): the value of the `writesBack` parameter of
+    `mergeOptions` / `generateOptions` under which `caller_user_options_untouched` is stated -/
+theorem caller_arguments_read_only : Gen.GlobalState.callerArgWrites = [] := by rfl
+
+/-- the settings arguments are followed to where they are used (in particular into `merge_options`) -/
+theorem settings_arguments_followed :
+    Known.settingsArgCells.all (fun c => Gen.GlobalState.callerArgCells.contains c) = true := by decide
+
+/-- where a caller-owned argument leaves the scanned code: only the known places (files, stream, application) -/
+theorem caller_argument_escapes_known :
+    Gen.GlobalState.callerArgEscapes.all (fun e => Known.callerArgEscapes.contains e) = true := by decide
+
 end SnowModel.Props.C19Bridge
